@@ -5,8 +5,8 @@ import CddVerif.Gen.JsonSchemaTables
 
 * `J` — JSON values with *ordered* objects (a Python `dict` is an association list with insertion order).
 * `emitProp` / `emitT` / `emit` — port of `param2json_schema_property` / `emit.json_schema`, decision by decision
-  (`emit` is `Except`: `Typ.emitError` is the one place where the real function raises on the domain — a `Literal`
-  with a single member; `emitT` is the dict it returns otherwise).  The input
+  (`emit` is `Except`: `Typ.emitError` — the real function raises on the ill-formed `Literal[]`, which is outside the
+  domain; `emitT` is the dict it returns otherwise).  The input
   is the structured interface description `IR` (types as a small grammar `Typ`: the six JSON-representable names,
   `Literal[str, …]`, and `Optional[…]` of those).  The string predicates the code applies to the type string
   (`typ in typ2json_type`, `startswith("Optional[")`, `[len("Optional["):-1]`, `startswith("Literal[")`, the
@@ -235,13 +235,12 @@ def emitType (t : Typ) : Str × Option Str :=
   | .base b => (jsonTypeOf b.name, none)
   | .lit ms => (jsonTypeOf js!"str", some (patternOf ms))
 
-/-- `param2json_schema_property` raises on a `Literal` with fewer than two members:
-    `ast.parse("Literal[]")` is a SyntaxError, and for `Literal['a']` the subscript is a `Constant`, not a `Tuple`, so
-    `get_value(parsed_typ.slice).elts` is `'a'.elts` — AttributeError. -/
+/-- `param2json_schema_property` raises on the (ill-formed, outside the domain) `Literal[]`: `ast.parse("Literal[]")`
+    is a SyntaxError.  A one-member `Literal['a']` — whose subscript is the member itself, not a `Tuple` — is emitted
+    like any other `Literal` (since the `fix:` commit for C06-single-member-literal). -/
 def Typ.emitError (t : Typ) : Option Str :=
   match t.core with
   | .lit [] => some js!"SyntaxError"
-  | .lit [_] => some js!"AttributeError"
   | _ => none
 
 /-- the default the emitter writes: `del _param["default"]` for a member of `none_types` -/
